@@ -80,7 +80,8 @@ class Gen:
             k = self.newvar()
             return [f'{ind}for {k} in range({self.rng.randint(0, 3)}):'] + self.block(ind + '    ', depth - 1, in_func)
         if r < 0.68:
-            c = self.newvar()
+            self.nvar += 1
+            c = f'w{self.nvar}'          # not in self.vars: the body cannot touch the counter, so every program terminates
             return [f'{ind}{c} = 0', f'{ind}while {c} < {self.rng.randint(1, 3)}:', f'{ind}    {c} += 1'] + \
                 self.block(ind + '    ', depth - 1, in_func, 1)
         if r < 0.80 and not in_func:
